@@ -96,6 +96,13 @@ func (c *Conn) ReadFrom(r io.Reader) (int64, error) {
 // Close closes the connection.
 // Any blocked Read or Write operations will be unblocked and return errors.
 func (c *Conn) Close() error {
+	// The per-URL buckets were created for this connection alone (see
+	// Listener.GetTrafficShapedConn); each runs a drain goroutine and a ticker until it is closed.
+	for _, bs := range c.LocalBuckets {
+		bs.ReadBucket.Close()
+		bs.WriteBucket.Close()
+	}
+
 	return c.conn.Close()
 }
 
